@@ -3,6 +3,8 @@ package vrt
 import (
 	"reflect"
 	"sync"
+	"sync/atomic"
+	"unsafe"
 )
 
 // Native side of the goroutine harnesses: a minimal implementation (processes
@@ -61,7 +63,8 @@ func nativeClosed(ch any) bool {
 		return false
 	}
 	if v.Len() > 0 {
-		return false // cannot tell without consuming; callers use it on drained channels
+		// a receive would consume a buffered value: read the runtime's closed flag instead
+		return hchanClosed(v)
 	}
 	if v.Type().ChanDir()&reflect.RecvDir == 0 {
 		return false
@@ -69,6 +72,18 @@ func nativeClosed(ch any) bool {
 	// non-blocking receive: closed channels yield (zero, false) immediately
 	chosen, _, ok := reflect.Select([]reflect.SelectCase{{Dir: reflect.SelectRecv, Chan: v}, {Dir: reflect.SelectDefault}})
 	return chosen == 0 && !ok
+}
+
+// hchanClosed reads runtime.hchan.closed of a non-nil channel without touching
+// its buffer. Layout of go1.26 on 64-bit targets (the replay toolchain is
+// pinned): qcount uint, dataqsiz uint, buf unsafe.Pointer, elemsize uint16,
+// closed uint32 at offset 28. Only used while the run is quiescent.
+func hchanClosed(v reflect.Value) bool {
+	p := v.UnsafePointer()
+	if p == nil {
+		return false
+	}
+	return atomic.LoadUint32((*uint32)(unsafe.Add(p, 28))) != 0
 }
 
 func reflectLen(ch any) int {
